@@ -459,6 +459,36 @@ def rules(ck, P):
                 oku = oku and bool(newp) and ir.local_hid(newp[0]["a"][2]) == ir.local_hid(inc[0]["recv"])
             ck.check(oku, "R-COVER-OPS", short + "|union", "coverage = union of the pyramids of all sources, and that union is advertised", "coverage is not the union over all sources", ir.loc(b))
 
+    # ---------------- operations that synthesise a tile for EVERY coordinate (from_debug): their lookup has no coverage guard, so the only
+    # coverage that contains everything they return is the full pyramid over all valid levels (TileCoord3::new accepts z <= 31)
+    zmax = None
+    tcn = [b for b in P.bodies if b["q"].endswith("tile_coords::TileCoord3::new")]
+    for b in tcn:
+        for y in ir.walk_nodes(b["body"]):
+            cn = ir.cmp_norm(y) if y.get("k") == "bin" else None
+            if cn and cn[1] == "<=" and cn[2].isdigit() and (ir.strip(y["l"]).get("t") == "u8"):
+                zmax = int(cn[2])
+    for i in P.impls_of("::OperationTrait"):
+        if not i.get("self_adt", "").endswith("from_debug::Operation"):
+            continue
+        lk = P.impl_method(i, "get_tile_data", inline=False)
+        guarded = lk is not None and ir.contains(lk["body"], lambda y: y.get("k") == "mcall" and y.get("name") in ("contains_coord", "contains3", "contains"))
+        full = [y for b in P.bodies if b.get("self_adt") == i["self_adt"] for y in ir.walk_nodes(b["body"]) if y.get("k") == "call" and (y.get("q") or "").endswith("TileBBoxPyramid::new_full")]
+        okf = guarded or (len(full) == 1 and zmax is not None and ir.const_eval(full[0]["a"][0], {}) == zmax)
+        ck.check(okf, "R-COVER-OPS", "from_debug|full-pyramid", "from_debug answers every coordinate, and advertises the full pyramid up to the highest valid level (%s)" % zmax,
+                 "from_debug returns a tile for every coordinate but advertises new_full(%s) while coordinates up to level %s are valid: tiles of the levels above lie outside the advertised coverage" %
+                 (ir.const_eval(full[0]["a"][0], {}) if full else "?", zmax), ir.loc(full[0]) if full else None)
+    nf = [b for b in P.bodies if b["q"].endswith("tile_bbox_pyramid::TileBBoxPyramid::new_full")]
+    if ck.anchor("R-COVER-OPS", "TileBBoxPyramid::new_full", nf, 1):
+        b = nf[0]
+        c = [ir.cmp_norm(y["c"]) for y in ir.walk_nodes(b["body"]) if y.get("k") == "if" and ir.cmp_norm(y["c"]) is not None]
+        okn = len(c) == 1 and c[0][1] == "<=" and ir.contains(b["body"], lambda y: y.get("k") == "call" and (y.get("q") or "").endswith("TileBBox::new_full")) and \
+            ir.contains(b["body"], lambda y: y.get("k") == "call" and (y.get("q") or "").endswith("TileBBox::new_empty"))
+        if okn:
+            iff = [y for y in ir.walk_nodes(b["body"]) if y.get("k") == "if"][0]
+            okn = ir.contains(iff["then"], lambda y: (y.get("q") or "").endswith("TileBBox::new_full")) and ir.contains(iff.get("else", {}), lambda y: (y.get("q") or "").endswith("TileBBox::new_empty"))
+        ck.check(okn, "R-COVER-OPS", "new_full|levels", "new_full(n) is full on the levels 0..=n and empty above", "new_full(n) does not fill exactly the levels 0..=n", ir.loc(b))
+
 
 def mutants(P):
     out = []
